@@ -35,13 +35,25 @@ def _check_graph(g, spec, m, label, ntops=None):
     vs = sorted(g.variables(), key=repr)
     if ntops and len(vs) > ntops:
         vs = [g.top] + [vs[(i * len(vs)) // ntops] for i in range(ntops)]
-    for v in vs:
+    codec = penman.PENMANCodec(model=m)
+    for k, v in enumerate(vs):
         try:
-            s = penman.encode(g, top=v, model=m, indent=None)
+            # the public encoders / decoders in rotation: module functions, codec methods, stream functions
+            s = penman.encode(g, top=v, model=m, indent=None) if k % 2 == 0 else codec.encode(g, top=v, indent=None)
         except penman.exceptions.LayoutError as e:
             f.append(('encode-raises', '%s top=%r: LayoutError %s' % (label, v, e)))
             break
-        g2 = penman.decode(s, model=m)
+        how = k % 5
+        if how == 0:
+            g2 = penman.decode(s, model=m)
+        elif how == 1:
+            g2 = penman.loads(s, model=m)[0]
+        elif how == 2:
+            g2 = codec.decode(s)
+        elif how == 3:
+            g2 = next(iter(penman.iterdecode(s, model=m)))
+        else:
+            g2 = next(iter(codec.iterdecode(s)))
         d = graphm.content_diff(g.triples, v, g2.triples, g2.top, spec, explicit_top_a=v)
         if d:
             f.append(('content-changed', '%s top=%r -> %s : %s' % (label, v, s, d)))
